@@ -34,6 +34,7 @@ CLAUSES = {
     "post.evaluated_after_body_raise": {"C02"},
     "post.result_seen": {"C02"},
     "ret.result_identity": {"C02", "C14"},
+    "ret.body_not_run": {"C14", "C13", "C02"},
     "ret.exception_identity": {"C02", "C14", "C11"},
     "args.body_received": {"C14"},
     "args.contract_seen": {"C05"},
@@ -201,6 +202,9 @@ def name_clause(diag: dict, prog: dict) -> str:
                 r = role_of(prog, act[V])
                 return ctx({"pre": "pre.blocked_while_effpre_true", "inv": "inv.body_after_failed_before"}.get(
                     r, "exc.replaced"))
+            if act[CLS] == "ret":
+                # the caller got a value although the body was never entered
+                return "ret.body_not_run"
             return "exc.replaced"
     if ee == "ret":
         if ae == "body.in":
